@@ -862,6 +862,104 @@ Proof.
       assert (Hk0 : k <> 0) by lia.
       apply Hne. apply (linked_nth hs L (k - 1) x y Hx). rewrite <- Hy. f_equal. lia.
 Qed.
+
+Lemma Forall_firstn' {A} (P : A -> Prop) j : forall l, Forall P l -> Forall P (firstn j l).
+Proof.
+  induction j as [|j IH]; intros l H; [constructor|]. destruct H as [|x l Hx Hl]; [constructor|].
+  cbn [firstn]. constructor; [exact Hx | apply IH; exact Hl].
+Qed.
+Lemma Forall_skipn' {A} (P : A -> Prop) j : forall l, Forall P l -> Forall P (skipn j l).
+Proof.
+  induction j as [|j IH]; intros l H; [exact H|]. destruct H as [|x l Hx Hl]; [constructor|].
+  cbn [skipn]. apply IH. exact Hl.
+Qed.
+
+(* ---- one stored header overwritten above the start of the check ---- *)
+Definition replace_nth (d : nat) (x' : bytes) (hs : list bytes) : list bytes :=
+  firstn d hs ++ x' :: skipn (S d) hs.
+
+Lemma replace_nth_lt d x' hs i : i < d -> d < length hs -> nth_error (replace_nth d x' hs) i = nth_error hs i.
+Proof.
+  intros H Hd. unfold replace_nth. rewrite nth_error_app1 by (rewrite firstn_length; lia).
+  apply nth_error_firstn_lt. exact H.
+Qed.
+Lemma replace_nth_eq d x' hs : d < length hs -> nth_error (replace_nth d x' hs) d = Some x'.
+Proof.
+  intro Hd. unfold replace_nth. rewrite nth_error_app2 by (rewrite firstn_length; lia).
+  rewrite firstn_length. replace (d - Nat.min d (length hs)) with 0 by lia. reflexivity.
+Qed.
+Lemma replace_nth_gt d x' hs i : d < i -> d < length hs -> nth_error (replace_nth d x' hs) i = nth_error hs i.
+Proof.
+  intros H Hd. unfold replace_nth. rewrite nth_error_app2 by (rewrite firstn_length; lia).
+  rewrite firstn_length. replace (i - Nat.min d (length hs)) with (S (i - S d)) by lia.
+  cbn [nth_error]. rewrite nth_error_skipn. f_equal. lia.
+Qed.
+Lemma replace_nth_length d x' hs : d < length hs -> length (replace_nth d x' hs) = length hs.
+Proof. intro H. unfold replace_nth. rewrite app_length, firstn_length. cbn [length]. rewrite skipn_length. lia. Qed.
+
+Lemma nth_error_some_lt {A} (l : list A) i x : nth_error l i = Some x -> i < length l.
+Proof. intro H. apply nth_error_Some. congruence. Qed.
+
+(* A linked stored chain in which ONE header above the start of the check is overwritten so that the damage
+   shows in a prev-hash link (its own prev field no longer matches, or its successor no longer points to it):
+   the loaded chain is the undamaged prefix, cut one before the damaged header or exactly at it. *)
+Theorem open_after_single_damage c hs d x' :
+  Forall (fun x : bytes => length x = HS) hs -> linked hs -> length x' = HS ->
+  repair_start c < d -> d < length hs ->
+  ((forall p, nth_error hs (d - 1) = Some p -> h_prev x' <> dsha p)
+   \/ (exists y, nth_error hs (S d) = Some y /\ h_prev y <> dsha x')) ->
+  let s := load_repair sha256 c (concat (replace_nth d x' hs)) in
+  (hsize s = d - 1 \/ hsize s = d) /\ io s = firstn (HS * hsize s) (concat hs).
+Proof.
+  intros Hlen L Lx Hsd Hd Det. cbn zeta.
+  set (hs' := replace_nth d x' hs). set (file := concat hs').
+  assert (Hlen' : Forall (fun x : bytes => length x = HS) hs').
+  { unfold hs', replace_nth. apply Forall_app. split; [apply Forall_firstn'; exact Hlen|].
+    constructor; [exact Lx | apply Forall_skipn'; exact Hlen]. }
+  assert (Ll : length hs' = length hs) by (apply replace_nth_length; exact Hd).
+  assert (Lf : length file = HS * length hs) by (unfold file; rewrite (concat_length_HS hs' Hlen'), Ll; reflexivity).
+  assert (Hdiv : length file / HS = length hs).
+  { rewrite Lf, Nat.mul_comm. apply Nat.div_mul. unfold HS; lia. }
+  assert (Hst : open_start c file = repair_start c).
+  { unfold open_start. rewrite Lf, Nat.mul_comm, Nat.mod_mul by (unfold HS; lia). reflexivity. }
+  assert (HH : chunks (length file / HS) file = hs').
+  { rewrite Hdiv, <- Ll. unfold file. rewrite <- (app_nil_r (concat hs')). apply chunks_concat. exact Hlen'. }
+  (* the damage shows in hs' at link d or d+1 *)
+  assert (Brk : forall l, (forall i a b, repair_start c <= i -> nth_error l i = Some a -> nth_error l (S i) = Some b ->
+                                         h_prev b = dsha a) ->
+                          (forall i, i <= S d -> nth_error l i = nth_error hs' i) -> False).
+  { intros l Hl Hagree. destruct d as [|d']; [lia|]. replace (S d' - 1) with d' in Det by lia.
+    destruct Det as [D1 | (y & Hy & D2)].
+    - destruct (nth_error hs d') as [p|] eqn:Ep; [|apply nth_error_None in Ep; lia].
+      apply (D1 p eq_refl). apply (Hl d' p x'); [lia | |].
+      + rewrite Hagree by lia. unfold hs'. rewrite replace_nth_lt by lia. exact Ep.
+      + rewrite Hagree by lia. unfold hs'. apply replace_nth_eq. exact Hd.
+    - apply D2. apply (Hl (S d') x' y); [lia | |].
+      + rewrite Hagree by lia. unfold hs'. apply replace_nth_eq. exact Hd.
+      + rewrite Hagree by lia. unfold hs'. rewrite replace_nth_gt by lia. exact Hy. }
+  assert (Lnk : forall l, linked (skipn (repair_start c) l) ->
+            forall i a b, repair_start c <= i -> nth_error l i = Some a -> nth_error l (S i) = Some b -> h_prev b = dsha a).
+  { intros l Hl i a b Hi Ha Hb. apply (linked_nth _ Hl (i - repair_start c) a b); rewrite nth_error_skipn.
+    - rewrite <- Ha. f_equal. lia. - rewrite <- Hb. f_equal. lia. }
+  destruct (open_drops_from_first_break c file) as [[Hio Hsz] | (k & Hk & Hsz & Hio & Lk & B)].
+  - exfalso. destruct (open_linked_prefix c file) as (_ & _ & _ & _ & _ & Hsc & Hl & _).
+    rewrite Hst, Hsc, HH, Hsz, Hdiv, <- Ll, firstn_all in Hl.
+    apply (Brk hs' (Lnk hs' Hl)). reflexivity.
+  - rewrite Hst, HH in *. destruct B as [(-> & E0 & _) | (Hsk & x & y & Hx & Hy & Hne)].
+    { exfalso. clear - E0. unfold repair_start, CHUNK in E0. destruct (max_key (checkpoints c)); lia. }
+    assert (Hdk : d <= k).
+    { destruct (Nat.le_gt_cases d k) as [H|H]; [exact H|]. exfalso. apply Hne.
+      unfold hs' in Hx, Hy. rewrite replace_nth_lt in Hx, Hy by lia.
+      apply (linked_nth hs L (k - 1) x y Hx). rewrite <- Hy. f_equal. lia. }
+    assert (Hkd : k <= S d).
+    { destruct (Nat.le_gt_cases k (S d)) as [H|H]; [exact H|]. exfalso.
+      apply (Brk (firstn k hs') (Lnk _ Lk)). intros i Hi. apply nth_error_firstn_lt. lia. }
+    split; [lia|]. rewrite Hio, Hsz. unfold file, hs', replace_nth.
+    rewrite <- (firstn_skipn d hs) at 3. rewrite !concat_app.
+    assert (Lc : length (concat (firstn d hs)) = HS * d).
+    { rewrite concat_length_HS by (apply Forall_firstn'; exact Hlen). rewrite firstn_length. f_equal. lia. }
+    rewrite !firstn_app, Lc. replace (HS * (k - 1) - HS * d) with 0 by (unfold HS; lia). reflexivity.
+Qed.
 End Repair.
 
 (* ------------------------------------------------------------------------------------------ *)
@@ -1244,3 +1342,230 @@ Lemma repair_old_refuted :
   hsize (repair toy w_rcfg s 0) = 35.
 Proof. vm_compute. repeat split. Qed.
 End Refuted.
+
+(* the target a header is judged against never exceeds max_target, so for a 256-bit max_target the
+   assert statements of _calculate_compact cannot fire inside validate_header *)
+Lemma next_target_le mt pp p : (next_target mt pp p <= mt)%N.
+Proof. unfold next_target. destruct p; [apply N.le_min_l | apply N.le_refl]. Qed.
+
+Theorem validation_never_asserts mt pp p : (mt < 2 ^ 256)%N ->
+  compact_asserts (next_target mt pp p) = true /\ (compact (next_target mt pp p) < 2 ^ 32)%N.
+Proof.
+  intro H. apply compact_facts. apply N.le_lt_trans with mt; [apply next_target_le | exact H].
+Qed.
+
+(* ------------------------------------------------------------------------------------------ *)
+(* restart of a chain that obeys the rules                                                    *)
+(* ------------------------------------------------------------------------------------------ *)
+Section Restart.
+Variables sha256 sha512 rmd160 : bytes -> bytes.
+
+Lemma chain_rules_firstn c j hs :
+  chain_rules sha256 sha512 rmd160 c hs -> chain_rules sha256 sha512 rmd160 c (firstn j hs).
+Proof.
+  intros R k x Hk.
+  assert (Hkj : k < j).
+  { apply nth_error_some_lt in Hk. rewrite firstn_length in Hk. lia. }
+  specialize (R k x (nth_error_firstn_some j hs k x Hk)).
+  destruct k as [|[|k]]; cbn [prev1 prev2] in *.
+  - exact R.
+  - rewrite nth_error_firstn_lt by lia. exact R.
+  - rewrite !nth_error_firstn_lt by lia. exact R.
+Qed.
+
+Lemma chain_rules_linked c hs : chain_rules sha256 sha512 rmd160 c hs -> linked sha256 hs.
+Proof.
+  intro R. apply nth_linked. intros i a b Ha Hb.
+  specialize (R (S i) b Hb). cbn [prev1] in R. rewrite Ha in R. cbn [header_rules] in R. tauto.
+Qed.
+
+(* a stored chain that obeys the rules, cut at any byte: the m/112 whole headers are loaded and they
+   still obey the rules *)
+Theorem restart_after_cut_keeps_rules c hs m g :
+  genesis c = Some g ->
+  Forall (fun x : bytes => length x = HS) hs -> chain_rules sha256 sha512 rmd160 c hs ->
+  m <= length (concat hs) ->
+  let s := load_repair sha256 c (firstn m (concat hs)) in
+  hsize s = m / HS /\ io s = firstn m (concat hs) /\
+  stored_chain s = firstn (m / HS) hs /\ chain_rules sha256 sha512 rmd160 c (stored_chain s).
+Proof.
+  intros G Hlen R Hm. cbn zeta.
+  assert (Gen : forall x, nth_error hs 0 = Some x -> repair_genesis_ok sha256 c x = true).
+  { intros x Hx. specialize (R 0 x Hx). cbn [prev1 prev2 header_rules] in R. rewrite G in R.
+    unfold repair_genesis_ok. rewrite G. apply bytes_eqb_eq. exact R. }
+  rewrite (open_after_cut sha256 c hs m Hlen (chain_rules_linked c hs R) Gen Hm).
+  cbn [io hsize]. split; [reflexivity|]. split; [reflexivity|].
+  assert (Hq : m / HS <= length hs).
+  { rewrite (concat_length_HS hs Hlen) in Hm. clear - Hm. euc. }
+  assert (E : stored_chain (mkSt (firstn m (concat hs)) (m / HS) []) = firstn (m / HS) hs).
+  { unfold stored_chain; cbn [io hsize]. transitivity (chunks (m / HS) (concat hs)).
+    - apply chunks_ext. apply firstn_firstn_le. clear. euc.
+    - rewrite <- (chunks_firstn_list (m / HS) (length hs)) by exact Hq.
+      rewrite <- (app_nil_r (concat hs)). rewrite (chunks_concat hs Hlen []). reflexivity. }
+  split; [exact E|]. rewrite E. apply chain_rules_firstn. exact R.
+Qed.
+End Restart.
+
+(* ------------------------------------------------------------------------------------------ *)
+(* Python's int(a / b) and the retarget rule                                                  *)
+(* ------------------------------------------------------------------------------------------ *)
+Section Division.
+Local Open Scope N_scope.
+Lemma size_mul_cases b k : 0 < b -> 0 < k ->
+  N.size (b * k) = N.size b + N.log2 k \/ N.size (b * k) = N.size b + N.log2 k + 1.
+Proof.
+  intros Hb Hk.
+  rewrite !N.size_log2 by lia.
+  pose proof (N.log2_mul_below b k Hb Hk). pose proof (N.log2_mul_above b k ltac:(lia) ltac:(lia)). lia.
+Qed.
+
+(* int(a / b) is exact whenever the true quotient is an integer with at most 53 significant bits *)
+Lemma div_round53_exact b k : 0 < b -> k mod 2 ^ (N.log2 k - 52) = 0 -> div_round53 (b * k) b = k.
+Proof.
+  intros Hb Hk. destruct (N.eq_dec k 0) as [->|Hk0].
+  { unfold div_round53. rewrite N.mul_0_r. reflexivity. }
+  unfold div_round53.
+  assert (Ha : b * k <> 0) by nia.
+  replace ((b * k =? 0) || (b =? 0)) with false
+    by (symmetry; apply orb_false_iff; split; apply N.eqb_neq; lia).
+  set (L := N.log2 k) in *.
+  assert (Hlo : 2 ^ L <= k) by (apply N.log2_spec; lia).
+  assert (Hhi : k < 2 ^ (L + 1)) by (rewrite N.add_1_r; apply N.log2_spec; lia).
+  assert (E : (let d := (Z.of_N (N.size (b * k)) - Z.of_N (N.size b))%Z in
+               if if (0 <=? d)%Z then N.shiftl b (Z.to_N d) <=? b * k else b <=? N.shiftl (b * k) (Z.to_N (- d))
+               then d else (d - 1)%Z) = Z.of_N L).
+  { cbn zeta. destruct (size_mul_cases b k Hb ltac:(lia)) as [Hs|Hs]; rewrite Hs; fold L.
+    - replace (Z.of_N (N.size b + L) - Z.of_N (N.size b))%Z with (Z.of_N L) by lia.
+      replace (0 <=? Z.of_N L)%Z with true by (symmetry; apply Z.leb_le; lia).
+      rewrite N2Z.id, N.shiftl_mul_pow2.
+      replace (b * 2 ^ L <=? b * k) with true; [reflexivity|].
+      symmetry. apply N.leb_le. apply N.mul_le_mono_l. exact Hlo.
+    - replace (Z.of_N (N.size b + L + 1) - Z.of_N (N.size b))%Z with (Z.of_N (L + 1)) by lia.
+      replace (0 <=? Z.of_N (L + 1))%Z with true by (symmetry; apply Z.leb_le; lia).
+      rewrite N2Z.id, N.shiftl_mul_pow2.
+      replace (b * 2 ^ (L + 1) <=? b * k) with false; [lia|].
+      symmetry. apply N.leb_gt. apply N.mul_lt_mono_pos_l; [exact Hb | exact Hhi]. }
+  cbn zeta in E. cbn zeta. rewrite E.
+  destruct (N.le_gt_cases L 52) as [HL|HL].
+  - replace (0 <=? 52 - Z.of_N L)%Z with true by (symmetry; apply Z.leb_le; lia).
+    replace (Z.to_N (52 - Z.of_N L)) with (52 - L) by lia.
+    set (sh := 52 - L).
+    rewrite N.shiftl_mul_pow2.
+    replace (b * k * 2 ^ sh) with (k * 2 ^ sh * b) by lia.
+    rewrite N.div_mul by lia. rewrite N.mod_mul by lia.
+    replace (b <? 2 * 0) with false by (symmetry; apply N.ltb_ge; lia).
+    replace (2 * 0 =? b) with false by (symmetry; apply N.eqb_neq; lia).
+    rewrite N.shiftr_div_pow2. apply N.div_mul. apply N.pow_nonzero. lia.
+  - replace (0 <=? 52 - Z.of_N L)%Z with false by (symmetry; apply Z.leb_gt; lia).
+    replace (Z.to_N (- (52 - Z.of_N L))) with (L - 52) by lia.
+    set (t := L - 52) in *.
+    assert (Hp : 2 ^ t <> 0) by (apply N.pow_nonzero; lia).
+    assert (Hk1 : k = k / 2 ^ t * 2 ^ t).
+    { pose proof (N.div_mod k (2 ^ t) Hp). lia. }
+    set (k1 := k / 2 ^ t) in *.
+    rewrite !N.shiftl_mul_pow2.
+    replace (b * k) with (k1 * (b * 2 ^ t)) by (rewrite Hk1 at 1; lia).
+    assert (Hd : b * 2 ^ t <> 0) by nia.
+    rewrite N.div_mul by exact Hd. rewrite N.mod_mul by exact Hd.
+    replace (b * 2 ^ t <? 2 * 0) with false by (symmetry; apply N.ltb_ge; lia).
+    replace (2 * 0 =? b * 2 ^ t) with false by (symmetry; apply N.eqb_neq; lia).
+    lia.
+Qed.
+
+Lemma from_compact_53 c : from_compact c mod 2 ^ (N.log2 (from_compact c) - 52) = 0.
+Proof.
+  unfold from_compact.
+  set (size := N.shiftr c 24). set (word := N.land c 8388607).
+  assert (Hw : word < 2 ^ 23).
+  { unfold word. change 8388607 with (N.ones 23). rewrite N.land_ones. apply N.mod_lt. apply N.pow_nonzero. lia. }
+  destruct (size <=? 3) eqn:E.
+  - set (k := N.shiftr word (8 * (3 - size))).
+    assert (Hk : k < 2 ^ 23).
+    { unfold k. rewrite N.shiftr_div_pow2. apply N.le_lt_trans with word; [|exact Hw].
+      apply N.div_le_upper_bound; [apply N.pow_nonzero; lia|].
+      assert (1 <= 2 ^ (8 * (3 - size))) by (apply N.lt_pred_le, N.neq_0_lt_0, N.pow_nonzero; lia). nia. }
+    assert (N.log2 k <= 22).
+    { destruct (N.eq_dec k 0) as [->|Hz]; [cbn; lia|]. apply N.lt_succ_r. apply N.log2_lt_pow2; [lia | exact Hk]. }
+    replace (N.log2 k - 52) with 0 by lia. apply N.mod_1_r.
+  - set (s := 8 * (size - 3)). rewrite N.shiftl_mul_pow2.
+    destruct (N.eq_dec word 0) as [->|Hz].
+    { rewrite N.mul_0_l. apply N.mod_0_l. apply N.pow_nonzero. lia. }
+    rewrite N.log2_mul_pow2 by lia.
+    assert (N.log2 word <= 22).
+    { apply N.lt_succ_r. apply N.log2_lt_pow2; [lia | exact Hw]. }
+    set (u := s + N.log2 word - 52).
+    assert (Hu : u <= s) by lia.
+    replace (2 ^ s) with (2 ^ (s - u) * 2 ^ u) by (rewrite <- N.pow_add_r; f_equal; lia).
+    rewrite N.mul_assoc. apply N.mod_mul. apply N.pow_nonzero. lia.
+Qed.
+
+(* blocks exactly on schedule (150 s apart) leave the target as the previous bits encode it *)
+Theorem retarget_on_schedule mt pp cur :
+  let prev := match pp with Some x => x | None => cur end in
+  (Z.of_N (h_time cur) - Z.of_N (h_time prev) = 150)%Z ->
+  from_compact (h_bits cur) * 150 < 2 ^ 256 ->
+  next_target mt pp (Some cur) = N.min mt (from_compact (h_bits cur)).
+Proof.
+  cbn zeta. intros Ht Hsmall. unfold next_target. rewrite Ht. unfold TIMESPAN.
+  change (Z.max (150 - Z.quot 150 8) (Z.min (150 + Z.quot (150 - 150) 8) (150 + Z.quot 150 2))) with 150%Z.
+  change (Z.to_N 150) with 150.
+  rewrite N.mod_small by exact Hsmall.
+  rewrite (N.mul_comm (from_compact (h_bits cur)) 150).
+  rewrite div_round53_exact; [reflexivity | lia | apply from_compact_53].
+Qed.
+End Division.
+
+(* ------------------------------------------------------------------------------------------ *)
+(* header lookups while a chunk getter is installed                                           *)
+(* ------------------------------------------------------------------------------------------ *)
+Section Lookups.
+Variables sha256 sha512 rmd160 : bytes -> bytes.
+
+(* a lookup changes the state only by storing a chunk that hashes to the checkpoint of its range *)
+Theorem lookup_only c s height chunk s' r l :
+  lookup_header sha256 c s height chunk = (s', r, l) ->
+  s' <> s -> lookup (chunk_start height) (checkpoints c) = Some (dsha sha256 chunk).
+Proof.
+  unfold lookup_header. destruct (ensure_chunk_at sha256 c s height chunk) as [s1 r1] eqn:E.
+  intros H Hne. apply (ensure_chunk_only sha256 c s height chunk s1 r1 E).
+  destruct r1; try destruct (Nat.ltb height (hsize s1)); inversion H; subst; exact Hne.
+Qed.
+
+Lemma lookup_unchanged c s height chunk :
+  lookup (chunk_start height) (checkpoints c) = None ->
+  fst (fst (lookup_header sha256 c s height chunk)) = s.
+Proof.
+  intro Hn. unfold lookup_header, ensure_chunk_at, fetch_chunk. rewrite Hn.
+  destruct (has_header sha256 c s height); destruct (Nat.ltb height (hsize s)); reflexivity.
+Qed.
+
+(* histories that mix connect calls with lookups in ranges that have no checkpoint *)
+Inductive hop := OConnect (start : nat) (batch : bytes) | OLookup (height : nat) (chunk : bytes).
+
+Definition hstep (c : cfg) (s : st) (op : hop) : st :=
+  match op with
+  | OConnect start batch => fst (connect sha256 sha512 rmd160 c s start batch)
+  | OLookup height chunk => fst (fst (lookup_header sha256 c s height chunk))
+  end.
+
+Definition lookups_uncheckpointed (c : cfg) (ops : list hop) : Prop :=
+  forall h ch, In (OLookup h ch) ops -> lookup (chunk_start h) (checkpoints c) = None.
+
+Theorem chain_invariant_lookups c ops : forall s,
+  lookups_uncheckpointed c ops ->
+  wf s -> chain_rules sha256 sha512 rmd160 c (stored_chain s) ->
+  let s' := fold_left (hstep c) ops s in
+  wf s' /\ chain_rules sha256 sha512 rmd160 c (stored_chain s').
+Proof.
+  induction ops as [|op ops IH]; intros s Hu W R; [split; assumption|].
+  cbn [fold_left]. apply IH.
+  - intros h ch Hin. apply (Hu h ch). right. exact Hin.
+  - destruct op as [start batch | height chunk]; cbn [hstep].
+    + apply valid_chain_rules in R. apply (connect_inv sha256 sha512 rmd160 c s start batch (conj W R)).
+    + rewrite lookup_unchanged; [exact W|]. apply (Hu height chunk). left. reflexivity.
+  - destruct op as [start batch | height chunk]; cbn [hstep].
+    + apply valid_chain_rules in R. apply valid_chain_rules.
+      apply (connect_inv sha256 sha512 rmd160 c s start batch (conj W R)).
+    + rewrite lookup_unchanged; [exact R|]. apply (Hu height chunk). left. reflexivity.
+Qed.
+End Lookups.
